@@ -30,7 +30,15 @@ def clang_cmd(family, ndebug=True):
              "-Xclang", "-ast-dump=json", os.path.join(SRC, "_%sBTree.c" % family)])
 
 
+# C structs that Python code can never reach (stack-allocated cursors): their
+# fields are kept apart from same-named fields of the container structs and
+# are not havocked when a call may run Python code.
+PRIVATE_RECORDS = ("SetIteration_s",)
+
+
 class TU:
+    fieldmap = {}
+
     def __init__(self, family, functions, records, enums, globals_):
         self.family = family
         self.functions = functions      # name -> FunctionDecl node (with body)
@@ -49,7 +57,7 @@ def load_tu(family, ndebug=True):
         raise RuntimeError("clang failed on _%sBTree.c: %s" % (family, p.stderr.decode()[-2000:]))
     d = json.loads(p.stdout)
     del p
-    functions, records, globals_ = {}, {}, {}
+    functions, records, globals_, fieldmap = {}, {}, {}, {}
     cur = None
     for n in d["inner"]:
         loc = n.get("loc", {})
@@ -65,12 +73,17 @@ def load_tu(family, ndebug=True):
                 if cur and os.path.abspath(cur).startswith(os.path.abspath(SRC)):
                     n["_file"] = os.path.basename(cur)
                     functions[n["name"]] = n
+        elif k == "RecordDecl" and n.get("completeDefinition") and n.get("name") in PRIVATE_RECORDS:
+            for c in n.get("inner", []):
+                if c.get("kind") == "FieldDecl" and "name" in c:
+                    fieldmap[c["id"]] = "%s.%s" % (n["name"].replace("_s", ""), c["name"])
         elif k == "RecordDecl" and n.get("completeDefinition"):
             records[n.get("name") or n["id"]] = [c["name"] for c in n.get("inner", [])
                                                  if c.get("kind") == "FieldDecl" and "name" in c]
         elif k == "VarDecl":
             globals_[n["id"]] = n.get("name")
     tu = TU(family, functions, records, {}, globals_)
+    tu.fieldmap = fieldmap
     _cache[key] = tu
     return tu
 
